@@ -54,7 +54,7 @@ inductive Instr where
   | gAddEdge (g : Reg) (u v : Int)                -- `G.add_edge(u, v)` by the caller, any cnfgen graph
   | tseitin (g : Reg) (charges : Option Reg) (descr : String)          -- `TseitinFormula(G, charges)`
   | gphp (g : Reg) (functional onto : Bool) (descr : String)            -- `GraphPigeonholePrinciple(B, functional, onto)`
-  | planted (p : Reg) (n m : Nat) (cands : List (List Int)) (descr : String)   -- `RandomKCNF(k, n, m, planted_assignments=P)`, draws fixed
+  | planted (p : Reg) (k n m : Nat) (cands dense : List (List Int)) (descr : String)   -- `RandomKCNF(k, n, m, planted_assignments=P)`, draws fixed
   | liveGroup (f : Reg)                           -- the group object `p` made by the family call that returned `f`
   deriving Repr, Inhabited
 
@@ -157,9 +157,9 @@ def step (cfg : Cfg) (m : Machine) (ins : Instr) : Option Machine :=
   | .gphp g fn onto d => do
       let g ← m.reg g
       fin (addrRes (famCall cfg s [g] [(0, .bipartite)] (some d) (gphpProg fn onto)))
-  | .planted p n k cands d => do
+  | .planted p k n mm cands dense d => do
       let p ← m.reg p
-      fin (addrRes (famCall cfg s [p] [] (some d) (plantedProg n k cands)))
+      fin (addrRes (famCall cfg s [p] [] (some d) (plantedProg k n mm cands dense)))
   | .liveGroup f => do
       let f ← m.reg f
       match lastBGroup s f with
